@@ -298,3 +298,16 @@ Proof.
   - rewrite (strict_scan_refines_scan_model _ rx_captures_has_group0). vm_compute. eexists. eexists. split; reflexivity.
   - rewrite (lazy_scan_refines_scan_model _ rx_captures_has_group0). vm_compute. eexists. eexists. split; reflexivity.
 Qed.
+
+(* `$k` in the interpreters: eval / leval on a regex capture ARE the lookup functions of Model/Scan.v
+   (regex_capture_lookup) applied to the capture strings of the enclosing arm — those the scan folds
+   above pass to the arm runner (le_with_caps / ll_with_caps) *)
+Theorem regex_capture_interp : forall t fl glob call fuel i,
+  (forall le s p, eval t fl glob call (S fuel) le (ERegexCap i) s p = lift (regex_capture_strict (le_caps le) i) s p) /\
+  (forall le s p, leval t fl glob call (S fuel) le (ERegexCap i) s p =
+                  (v <- lift (regex_capture_lazy (ll_caps le) i) ;; ret (LValue v)) s p).
+Proof.
+  intros t fl glob call fuel i. split; intros le s p.
+  - cbn [eval]. unfold regex_capture_strict. destruct (nth_error (le_caps le) (N.to_nat i)); reflexivity.
+  - cbn [leval]. unfold regex_capture_lazy. destruct (nth_error (ll_caps le) (N.to_nat i)); reflexivity.
+Qed.
